@@ -43,12 +43,12 @@ def fam_task(task):
         for sc in fam(rng):
             if sc[0] == 'MT':           # model command with the implementation's expected answer
                 n += 1
-                stats['tree-classes-vs-model'] += 1
+                stats['classes-vs-model:' + sc[1].split(' ', 1)[0]] += 1
                 got = model.cmd(sc[1])
                 if got != sc[2]:
-                    stats['tree-classes-differ'] += 1
+                    stats['classes-vs-model-differ'] += 1
                     if len(dis) < 5:
-                        dis.append(dict(label='tree classes vs MerkleTree.v', cmd=sc[1][:400], impl=sc[2][:400], model=got[:400]))
+                        dis.append(dict(label='helper classes vs model (MerkleTree.v / AMHL.v)', cmd=sc[1][:400], impl=sc[2][:400], model=got[:400]))
                 continue
             label, scripts, cache, cfg, exp = sc[:5]
             finding = sc[5] if len(sc) > 5 else None
@@ -149,11 +149,13 @@ class AuthTrace:
         def rt(tape, stack, cache, additional_flags={}):
             top = tsh._Capture.depth == 0
             if top:
-                tr.scripts.append(dict(spans=[], returns=0, raised=False, tape=tape, n=len(tape.data)))
+                tr.scripts.append(dict(spans=[], returns=0, raised=False, tape=tape, n=len(tape.data),
+                                       count0=tape.callstack_count, defs=tape.definitions, limit=tape.callstack_limit))
             try:
                 r = orig_wrapper(tape, stack, cache, additional_flags=additional_flags)
                 if top:
                     tr.scripts[-1]['stack_after'] = stack.list()
+                    tr.scripts[-1]['count1'] = tape.callstack_count
                 return r
             except BaseException:
                 if top:
@@ -255,6 +257,16 @@ def c01_direct(scripts, cache_vals, cfg):
         else:
             if pos != s['n']:
                 out.append('script %d: stopped at offset %d of %d' % (k, pos, s['n']))
+    # what a later script inherits: the call budget already spent, the definitions, the limit
+    for k in range(1, len(tr.scripts)):
+        a, b = tr.scripts[k - 1], tr.scripts[k]
+        if 'count1' in a and b['count0'] != a['count1']:
+            out.append('script %d starts with call count %s, but script %d ended with %s: the call budget spent so far '
+                       'is not carried over' % (k, b['count0'], k - 1, a['count1']))
+        if b['defs'] is not a['defs'] and b['defs'] != a['defs']:
+            out.append('script %d does not see the definitions of script %d' % (k, k - 1))
+        if b['limit'] != a['limit']:
+            out.append('script %d runs under callstack limit %s, script %d under %s' % (k, b['limit'], k - 1, a['limit']))
     # verdict exactness
     expected = ran_all and tr.scripts[-1].get('stack_after') == [b'\xff']
     if bool(v) != expected:
@@ -562,6 +574,8 @@ def c02_task(task):
         present = rng.getrandbits(8) if rng.random() < 0.7 else rng.choice([0, 1, 0xff, 3])
         cache = {'sigfield%d' % i: bytes(rng.getrandbits(8) for _ in range(rng.choice([0, 1, 3, 9])))
                  for i in range(1, 9) if (present >> (i - 1)) & 1}
+        if rng.random() < 0.5:     # insertion order of the embedder's dict is arbitrary
+            items = list(cache.items()); rng.shuffle(items); cache = dict(items)
         k = rng.randrange(len(SEEDS))
         seed_, key = SEEDS[k], PUBS[k]
         mode = rng.random()
